@@ -369,7 +369,13 @@ fn part_c(tier: Tier, report: &mut Report) {
                         want.sort_by_key(|x| x.to_string());
                         // the real server
                         let world = World::new("c08");
-                        let settings = world.settings(json!({}), "American");
+                        let mut settings = world.settings(json!({}), "American");
+                        if with_code {
+                            // the other code-action ordering, and another severity: the fixes must be there all the same
+                            let o = settings["harper-ls"].as_object_mut().unwrap();
+                            o.insert("codeActions".into(), json!({"ForceStable": true}));
+                            o.insert("diagnosticSeverity".into(), json!("warning"));
+                        }
                         let mut server = Server::new(world.config(), settings);
                         server.boot()?;
                         let uri = world.uri("doc.src");
